@@ -33,6 +33,9 @@ Proof.
   intros p. apply (G (length p)). lia.
 Qed.
 
+Ltac addr_induction :=
+  match goal with |- forall p, addr_ok p = true -> @?Q p => apply (addr_ok_ind Q) end.
+
 (* ---------- the "."-separated segments of a rendered address ---------- *)
 Fixpoint segs (p : addr) : list str :=
   match p with
@@ -54,7 +57,7 @@ Proof. destruct t; [congruence|reflexivity]. Qed.
 
 Lemma segs_nonempty p : addr_ok p = true -> p <> [] -> segs p <> [].
 Proof.
-  intros Hok. induction Hok as [|k r Hk Hr Hn IH|k i r Hk Hi Hr IH] using addr_ok_ind; intros Hne.
+  revert p. addr_induction; [|intros k r Hk Hr Hn IH|intros k i r Hk Hi Hr IH]; intros Hne.
   - congruence.
   - rewrite segs_key by exact Hn. discriminate.
   - discriminate.
@@ -68,8 +71,10 @@ Proof. induction l as [|a l IH]; cbn; [reflexivity|rewrite IH; reflexivity]. Qed
 
 Lemma prefixb_lbr_clean k : mem_ascii lbr k = false -> prefixb [lbr] k = false.
 Proof.
-  destruct k as [|c k]; [reflexivity|]. intros H. cbn in H. apply orb_false_iff in H as [H _].
-  cbn. rewrite Ascii.eqb_sym, H. reflexivity.
+  destruct k as [|c k]; [reflexivity|]. intros H.
+  change (mem_ascii lbr (c :: k)) with (Ascii.eqb lbr c || mem_ascii lbr k) in H.
+  apply orb_false_iff in H as [H _].
+  change (prefixb [lbr] (c :: k)) with (Ascii.eqb lbr c && prefixb [] k). rewrite H. reflexivity.
 Qed.
 
 Lemma add_seg_key acc k : mem_ascii lbr k = false -> add_seg acc k = dotted acc ++ k.
@@ -91,7 +96,7 @@ Lemma fold_add_seg p : addr_ok p = true -> forall acc,
   fold_left add_seg (map (node_of false) p) acc =
   match p with [] => acc | _ => dotted acc ++ join sdot (segs p) end.
 Proof.
-  intros Hok. induction Hok as [|k r Hk Hr Hn IH|k i r Hk Hi Hr IH] using addr_ok_ind; intros acc.
+  revert p. addr_induction; [|intros k r Hk Hr Hn IH|intros k i r Hk Hi Hr IH]; intros acc.
   - reflexivity.
   - destruct (clean_key_inv _ Hk) as (_ & Hb & _ & Hne).
     cbn [map node_of fold_left]. rewrite IH, add_seg_key by exact Hb.
@@ -102,9 +107,9 @@ Proof.
       unfold dotted at 1. rewrite nonempty_app_r by exact Hne.
       rewrite <- !app_assoc. reflexivity.
   - destruct (clean_key_inv _ Hk) as (_ & Hb & _ & Hne).
-    cbn [map node_of fold_left]. rewrite IH, add_seg_key by exact Hb.
-    change (if false then itoa i else ["["%char] ++ itoa i ++ ["]"%char]) with ([lbr] ++ itoa i ++ [rbr]).
-    rewrite add_seg_idx.
+    cbn [map node_of fold_left].
+    change (["["%char] ++ itoa i ++ ["]"%char]) with ([lbr] ++ itoa i ++ [rbr]).
+    rewrite IH. rewrite add_seg_idx. rewrite add_seg_key by exact Hb.
     change (segs (SKey k :: SIdx i :: r)) with (idx_seg k i :: segs r).
     destruct r as [|st r'].
     + cbn [segs join]. unfold idx_seg. rewrite <- !app_assoc. reflexivity.
@@ -128,7 +133,7 @@ Qed.
 
 Lemma segs_good p : addr_ok p = true -> Forall good_name (segs p).
 Proof.
-  intros Hok. induction Hok as [|k r Hk Hr Hn IH|k i r Hk Hi Hr IH] using addr_ok_ind.
+  revert p. addr_induction; [|intros k r Hk Hr Hn IH|intros k i r Hk Hi Hr IH].
   - constructor.
   - destruct (clean_key_inv _ Hk) as (Hd & _ & _ & Hne).
     rewrite segs_key by exact Hn. constructor; [split; assumption|exact IH].
@@ -140,7 +145,7 @@ Qed.
 
 Lemma parse_segs p : addr_ok p = true -> parse_path_segs (segs p) = Ok (to_pkeys p).
 Proof.
-  intros Hok. induction Hok as [|k r Hk Hr Hn IH|k i r Hk Hi Hr IH] using addr_ok_ind.
+  revert p. addr_induction; [|intros k r Hk Hr Hn IH|intros k i r Hk Hi Hr IH].
   - reflexivity.
   - destruct (clean_key_inv _ Hk) as (_ & Hb & _ & Hne).
     rewrite segs_key, to_pkeys_key by exact Hn.
@@ -167,7 +172,7 @@ Qed.
 
 Lemma to_pkeys_names p : addr_ok p = true -> Forall (fun k => pk_name k <> []) (to_pkeys p).
 Proof.
-  intros Hok. induction Hok as [|k r Hk Hr Hn IH|k i r Hk Hi Hr IH] using addr_ok_ind.
+  revert p. addr_induction; [|intros k r Hk Hr Hn IH|intros k i r Hk Hi Hr IH].
   - constructor.
   - destruct (clean_key_inv _ Hk) as (_ & _ & _ & Hne).
     rewrite to_pkeys_key by exact Hn. constructor; [exact Hne|exact IH].
@@ -178,7 +183,7 @@ Qed.
 
 Lemma to_pkeys_nonempty p : addr_ok p = true -> p <> [] -> to_pkeys p <> [].
 Proof.
-  intros Hok. induction Hok as [|k r Hk Hr Hn IH|k i r Hk Hi Hr IH] using addr_ok_ind; intros Hne.
+  revert p. addr_induction; [|intros k r Hk Hr Hn IH|intros k i r Hk Hi Hr IH]; intros Hne.
   - congruence.
   - rewrite to_pkeys_key by exact Hn. discriminate.
   - discriminate.
@@ -203,7 +208,7 @@ Lemma segment_plain p : addr_ok p = true ->
   Forall (fun x => mem_ascii lbr x = false) (segs p) ->
   forall pre, segment (to_pkeys p) pre = ([], pre ++ segs p).
 Proof.
-  intros Hok. induction Hok as [|k r Hk Hr Hn IH|k i r Hk Hi Hr IH] using addr_ok_ind; intros HF pre.
+  revert p. addr_induction; [|intros k r Hk Hr Hn IH|intros k i r Hk Hi Hr IH]; intros HF pre.
   - cbn. rewrite app_nil_r. reflexivity.
   - rewrite segs_key in * by exact Hn. rewrite to_pkeys_key by exact Hn.
     inversion HF as [|? ? _ HF']; subst.
@@ -261,3 +266,163 @@ Proof.
   eapply leaf_resolves; eassumption.
 Qed.
 End Resolve.
+
+(* ---------- every side condition of [leaf_resolves] is needed ---------- *)
+Local Open Scope string_scope.
+Definition nopf9 : str -> option flt := fun _ => None.
+Definition lf (dotn noattr : bool) (m : value) := leaf_nodes (s"-") (s"#text") dotn m noattr.
+Definition vp (m : value) (path : string) := values_for_path nopf9 (s":") m (s path) [].
+
+Theorem leaf_resolves_conditions_needed :
+  (* the empty key: ValuesForPath drops the trailing empty segment *)
+  (let m := VMap [(s"doc", VMap [(s"", VInt 0)])] in
+   lf false false m = [(s"doc.", VInt 0)] /\ vp m "doc." = Ok [VMap [(s"", VInt 0)]]) /\
+  (* a key with "." *)
+  (let m := VMap [(s"a.b", VInt 1)] in lf false false m = [(s"a.b", VInt 1)] /\ vp m "a.b" = Ok []) /\
+  (* a key with "[" *)
+  (let m := VMap [(s"a[0]", VInt 1)] in lf false false m = [(s"a[0]", VInt 1)] /\ vp m "a[0]" = Ok []) /\
+  (* the key "*" is read as a wildcard *)
+  (let m := VMap [(s"*", VInt 1); (s"b", VInt 2)] in
+   In (s"*", VInt 1) (lf false false m) /\ vp m "*" = Ok [VInt 1; VInt 2]) /\
+  (* a list directly inside a list *)
+  (let m := VMap [(s"a", VList [VList [VInt 1]])] in
+   lf false false m = [(s"a[0][0]", VInt 1)] /\ vp m "a[0][0]" = Ok [VList [VInt 1]]) /\
+  (* dot notation for list members: ".N" is read as a key *)
+  (let m := VMap [(s"a", VList [VInt 1; VInt 2])] in
+   lf true false m = [(s"a.0", VInt 1); (s"a.1", VInt 2)] /\ vp m "a.0" = Ok []) /\
+  (* no-attributes option: the path without the text key denotes the element, not its text *)
+  (let m := VMap [(s"a", VMap [(s"#text", VStr (s"t")); (s"-n", VStr (s"1"))])] in
+   lf false true m = [(s"a", VStr (s"t"))] /\
+   vp m "a" = Ok [VMap [(s"#text", VStr (s"t")); (s"-n", VStr (s"1"))]]).
+Proof. vm_compute. repeat split; left; reflexivity. Qed.
+Local Close Scope string_scope.
+
+(* ---------- the no-attributes option removes exactly the attribute entries ---------- *)
+(* an address survives when none of its keys is dropped *)
+Definition keeps (drop : str -> bool) (p : addr) : bool :=
+  forallb (fun st => match st with SKey k => negb (drop k) | SIdx _ => true end) p.
+
+Lemma filter_flat_map_distr {A B} (f : B -> bool) (g : A -> list B) l :
+  filter f (flat_map g l) = flat_map (fun x => filter f (g x)) l.
+Proof. induction l as [|a l IH]; cbn; [reflexivity|]. rewrite filter_app, IH. reflexivity. Qed.
+
+Lemma filter_map_comm {A B} (f : B -> bool) (h : A -> B) l :
+  filter f (map h l) = map h (filter (fun x => f (h x)) l).
+Proof.
+  induction l as [|a l IH]; cbn; [reflexivity|]. rewrite IH. destruct (f (h a)); reflexivity.
+Qed.
+
+Lemma filter_indexed_flat {A B} (f : B -> bool) (g : nat -> A -> list B) l : forall i,
+  filter f (indexed_flat g l i) = indexed_flat (fun i x => filter f (g i x)) l i.
+Proof. induction l as [|a l IH]; intros i; cbn; [reflexivity|]. rewrite filter_app, IH. reflexivity. Qed.
+
+Lemma filter_none {A} (l : list A) : filter (fun _ => false) l = [].
+Proof. induction l as [|a l IH]; cbn; [reflexivity|exact IH]. Qed.
+
+Lemma keeps_under_key drop k (pv : addr * value) :
+  keeps drop (fst (under (SKey k) pv)) = negb (drop k) && keeps drop (fst pv).
+Proof. reflexivity. Qed.
+Lemma keeps_under_idx drop i (pv : addr * value) :
+  keeps drop (fst (under (SIdx i) pv)) = keeps drop (fst pv).
+Proof. reflexivity. Qed.
+
+Lemma leaves_prune drop : forall v,
+  leaves (prune drop v) = filter (fun pv => keeps drop (fst pv)) (leaves v).
+Proof.
+  induction v as [ | | | | | | | |m IH|l IH] using value_ind2; try reflexivity.
+  - cbn [prune leaves]. rewrite flat_map_flat_map, filter_flat_map_distr.
+    apply flat_map_ext_Forall. eapply Forall_impl; [|exact IH]. intros [k x] Hx. cbn [fst snd] in *.
+    rewrite filter_map_comm.
+    rewrite (filter_ext _ (fun pv => negb (drop k) && keeps drop (fst pv)) (keeps_under_key drop k)).
+    destruct (drop k); cbn [negb andb].
+    + rewrite filter_none. reflexivity.
+    + cbn [flat_map fst snd]. rewrite app_nil_r, Hx. reflexivity.
+  - cbn [prune leaves]. rewrite indexed_flat_map_arg, filter_indexed_flat.
+    apply indexed_flat_ext_Forall. eapply Forall_impl; [|exact IH]. intros x Hx i. cbn beta.
+    rewrite filter_map_comm.
+    rewrite (filter_ext _ (fun pv => keeps drop (fst pv)) (keeps_under_idx drop i)).
+    rewrite Hx. reflexivity.
+Qed.
+
+(* LeafNodes(NoAttributes): the leaves none of whose keys has the attribute
+   prefix, each with its path rendered without the text-key nodes *)
+Theorem noattr_exact ap tk dotn m :
+  leaf_nodes ap tk dotn m true =
+  map (fun pv => (render tk dotn true (fst pv), snd pv))
+      (filter (fun pv => keeps (is_attr ap) (fst pv)) (leaves m)).
+Proof. rewrite leaf_nodes_spec. unfold leaf_spec, strip_attrs. rewrite leaves_prune. reflexivity. Qed.
+
+(* without the option nothing is removed and every node is rendered *)
+Theorem attr_exact ap tk dotn m :
+  leaf_nodes ap tk dotn m false = map (fun pv => (render tk dotn false (fst pv), snd pv)) (leaves m).
+Proof. rewrite leaf_nodes_spec. reflexivity. Qed.
+
+(* the two renderings differ exactly by the nodes equal to the text key *)
+Theorem render_noattr tk dotn p :
+  render tk dotn true p =
+  fold_left add_seg (filter (fun node => negb (str_eqb node tk)) (map (node_of dotn) p)) [] /\
+  render tk dotn false p = fold_left add_seg (map (node_of dotn) p) [].
+Proof. unfold render. rewrite filter_keep_false. split; reflexivity. Qed.
+
+(* ---------- dot notation: the same paths when there is no list; with a list the
+   ".N" paths do not resolve (witness in leaf_resolves_conditions_needed) ---------- *)
+Fixpoint no_lists (v : value) : bool :=
+  match v with
+  | VMap m => forallb (fun kv => no_lists (snd kv)) m
+  | VList _ => false
+  | _ => true
+  end.
+Definition idx_free (p : addr) : bool :=
+  forallb (fun st => match st with SKey _ => true | SIdx _ => false end) p.
+
+Lemma leaves_idx_free : forall v, no_lists v = true ->
+  forall p y, In (p, y) (leaves v) -> idx_free p = true.
+Proof.
+  induction v as [ | | | | | | | |m IH|l IH] using value_ind2; intros Hn p y0 Hin;
+    try (destruct Hin as [E|[]]; inversion E; reflexivity).
+  - apply in_leaves_map in Hin as (k & y & p' & Hky & -> & Hin).
+    cbn [no_lists] in Hn. rewrite forallb_forall in Hn. specialize (Hn _ Hky).
+    rewrite Forall_forall in IH. exact (IH _ Hky Hn p' y0 Hin).
+  - discriminate.
+Qed.
+
+Lemma no_lists_prune drop : forall v, no_lists v = true -> no_lists (prune drop v) = true.
+Proof.
+  induction v as [ | | | | | | | |m IH|l IH] using value_ind2; intros Hn; try exact Hn.
+  cbn [prune no_lists] in *. rewrite forallb_forall in *. intros [k y] Hin.
+  apply in_flat_map in Hin as ([k0 y0] & Hin0 & Hin). cbn [fst snd] in Hin.
+  destruct (drop k0); [contradiction|]. destruct Hin as [E|[]]. inversion E; subst.
+  rewrite Forall_forall in IH. exact (IH _ Hin0 (Hn _ Hin0)).
+Qed.
+
+Lemma node_of_idx_free p : idx_free p = true -> map (node_of true) p = map (node_of false) p.
+Proof.
+  induction p as [|[k|i] p IH]; intros H; [reflexivity| |discriminate].
+  cbn [map node_of]. rewrite IH by exact H. reflexivity.
+Qed.
+
+Theorem dotn_irrelevant ap tk m noattr :
+  no_lists m = true -> leaf_nodes ap tk true m noattr = leaf_nodes ap tk false m noattr.
+Proof.
+  intros Hn. rewrite !leaf_nodes_spec. unfold leaf_spec. apply map_ext_in. intros [p x] Hin.
+  cbn [fst snd]. f_equal. unfold render. rewrite node_of_idx_free; [reflexivity|].
+  eapply leaves_idx_free; [|exact Hin].
+  destruct noattr; [apply no_lists_prune, Hn|exact Hn].
+Qed.
+
+Lemma no_lists_shape : forall v, no_lists v = true -> no_nested_lists v = true /\ lists_indexable v = true.
+Proof.
+  induction v as [ | | | | | | | |m IH|l IH] using value_ind2; intros Hn; try (split; reflexivity).
+  - cbn [no_lists no_nested_lists lists_indexable] in *. rewrite !forallb_forall in *.
+    rewrite Forall_forall in IH. split; intros kv Hin; apply (IH _ Hin (Hn _ Hin)).
+  - discriminate.
+Qed.
+
+Theorem leaf_resolves_dot pf sep ap tk dotn m path v :
+  is_map m = true -> wfb m = true -> keys_clean m = true -> no_lists m = true ->
+  In (path, v) (leaf_nodes ap tk dotn m false) ->
+  values_for_path pf sep m path [] = Ok [v].
+Proof.
+  intros Hm Hw Hk Hn Hin. destruct (no_lists_shape m Hn) as [H1 H2].
+  destruct dotn; [rewrite dotn_irrelevant in Hin by exact Hn|]; eapply leaf_resolves; eassumption.
+Qed.
